@@ -490,7 +490,8 @@ async def _main(ctx, only=None) -> None:
 
 # callers that give up while QUEUED for their turn on the session (Q), while in flight (C), timers (T), time passing (W):
 # whatever the callers do, the frames that reach the accessory authenticate at consecutive counters
-REQUEST_LEVEL_SCHEDULES = ["RRQARA", "RRRQQARARA", "RRQAWRAEA", "RRQRAAA", "RRCRA", "RRRQARQARA", "RQRA", "RRQTRA", "RRAQRAFRA", "RRQQRRAAQRA"]
+REQUEST_LEVEL_SCHEDULES = ["RRQARA", "RRRQQARARA", "RRQAWRAEA", "RRQRAAA", "RRCRA", "RRRQARQARA", "RQRA", "RRQTRA", "RRAQRAFRA", "RRQQRRAAQRA",
+                           "RAVARA", "VAVAVA", "RVVAARA", "VARVAA", "VVVVAAAA", "RAVAVAVAVA"]
 
 
 async def run_request_level(ctx) -> None:
@@ -501,11 +502,12 @@ async def run_request_level(ctx) -> None:
 
     for k, schedule in enumerate(REQUEST_LEVEL_SCHEDULES):
         for api in ("connection", "pairing"):
-            if not ctx.mine(k):
-                continue
-            ctx.case("request-level", schedule, api, sample={"part": "request-level", "schedule": schedule, "api": api}, kind="request-level")
-            await c08.Scenario(ctx, schedule, api, ("C05", k, api)).run()
-            ctx.count("request_level_schedules")
+            for rep in range(4 if "V" in schedule else 1):  # V picks a random moment of the reconnect: several draws
+                if not ctx.mine(k):
+                    continue
+                ctx.case("request-level", schedule, api, rep, sample={"part": "request-level", "schedule": schedule, "api": api}, kind="request-level")
+                await c08.Scenario(ctx, schedule, api, ("C05", k, api, rep)).run()
+                ctx.count("request_level_schedules")
 
 
 def run(ctx) -> None:
